@@ -41,13 +41,28 @@ THEOREMS = [
     'CpProofs.C15.C15_sweep_by_names_undercounts',
     'CpProofs.C15.C15_size_bounds',
     'CpProofs.C15.C15_stored_objects',
+    'CpProofs.C15.C15_object_count',
 ]
 LEVEL = 'proof'
 TECHNIQUE = ('Lean 4 proof: store invariant by induction over all request histories of a transcription of '
              'MemoryCache + caching.get/tee_output; model tied to the real tool by a differential run under a '
              'logical clock with a gated expiry thread')
-LEVEL_TEXT = ''
-LEVEL_NOTE = ''
+LEVEL_TEXT = ('Proved in Lean for every configuration and every history (any number of requests, clock advances and expiry '
+              'sweeps) of the transcribed MemoryCache + caching.get/tee_output/_wrapper: a response served from the cache '
+              'is the output of an earlier handler run (unique generation number) for the same store key, agrees with it '
+              'on every selecting header, is no older in whole seconds than min(delay, request max-age), carries Age = '
+              'elapsed whole seconds, was storable (no request/response no-store, no Pragma: no-cache, non-empty, below '
+              'maxobj_size); POST/PUT/DELETE (live table) and Pragma/Cache-Control: no-cache reach the handler and the next '
+              'request for the URI misses; cursize accounting bounds. Partial: agreement on every header of the response\'s '
+              'own Vary needs the hypothesis that a URI keeps its Vary list (full statement proved false, F16b); the store '
+              'key path+?+query is injective only for paths without "?" (collision proved, C15-N1); conditional '
+              'revalidation (validate_since), header tokenisation and thread interleavings are not in the model: the '
+              'anti-stampede placeholder is exercised on the real code with two gated request threads (oracle only).')
+LEVEL_NOTE = ('Trusted: Lean kernel (axioms propext, Classical.choice, Quot.sound only); the hand model '
+              'lean/CpModel/Cache.lean as validated on every run by the differential stream against the real tool '
+              '(in-process WSGI, logical clock substituted for caching.time/_cprequest.time, real expire_cache thread '
+              'driven one pass at a time); RE_HEADER_SPLIT/parse_header tokenisation and header-name case folding are '
+              'parameters; sequential requests per history (antistampede_timeout=None) in the differential stream.')
 TRUSTED_BASE = [
     'header tokenisation (RE_HEADER_SPLIT / parse_header) and header-name case folding are parameters: the '
     'generator emits plain comma-separated tokens and canonical header names',
@@ -909,9 +924,10 @@ def run(ctx):
         if c is not None:
             check_cases(ctx, [c])
     check_cases(ctx, [c for c in corpus_cases() if 'stampede' not in c])
+    check_stampede(ctx, [c['stampede'] for c in corpus_cases() if 'stampede' in c])
     # anti-stampede placeholder under two real, gated request threads (oracle only; the model is sequential)
     check_stampede(ctx, [gen_stampede(ctx.rng) for _ in range(ctx.budget(60, 1500))])
-    n = ctx.budget(1500, 150000)
+    n = ctx.budget(2500, 150000)
     procs = min(ctx.budget(8, 16), os.cpu_count() or 4)
     done = 0
     while done < n:
@@ -929,11 +945,11 @@ def search(ctx, around=None):
     cases = []
     if around is not None:
         # the neighbourhood of the disagreement: same configuration and URL/header alphabet, new histories
-        for i in range(3000):
+        for i in range(2000):
             c = gen_case(ctx.rng, long=(i % 2 == 0))
             c['cfg'] = dict(around['cfg'])
             cases.append(c)
-    cases += [gen_case(ctx.rng, long=(i % 3 == 0)) for i in range(12000)]
+    cases += [gen_case(ctx.rng, long=(i % 3 == 0)) for i in range(6000)]
     check_cases(ctx, cases, compare=False, procs=procs)
 
 
